@@ -365,7 +365,7 @@ func init() {
 		})
 	})
 
-	// logRotate: Ops = [{"K":"log","Sev":1..3,"Msg":hex} | {"K":"read"}]; a final read is implied.
+	// logRotate: Ops = [{"K":"log","Sev":1..3,"Msg":hex} | {"K":"read"} | {"K":"sync","Sev":0|1}]; a final read is implied.
 	// GC: also run the GC daemon with bound Combined while logging.
 	register("logRotate", func(raw json.RawMessage) (interface{}, error) {
 		var a struct {
@@ -432,9 +432,13 @@ func init() {
 						nlogged++
 					case "read":
 						take()
+					case "sync":
+						// synchronous writes on / off (what shakespeare switches on when a signal arrives)
+						log.SetSync(op.Sev != 0)
 					}
 				}
 				take()
+				log.SetSync(false)
 				return map[string]interface{}{"snaps": snaps}, nil
 			})
 		})
